@@ -16,7 +16,7 @@ the nesting prefixes, the bare prefixes, other hosts.
 STATIC = ["a", "b", "ab", "users", "v1", "x"]
 PNAMES = ["id", "x", "y", "name", "k"]
 STD = ["GET", "POST", "PUT", "DELETE", "PATCH", "HEAD", "OPTIONS", "CONNECT", "TRACE"]
-CUSTOM = ["PURGE", "LOCK", "BREW"]
+CUSTOM = ["PURGE", "LOCK", "BREW", "HEY"]
 DOMAINS = ["a.com", "b.com", "api.a.com", "{sub}.a.com", "{sub}.b.com", "{*any}.api.a.com", "{t}x.b.com", "c.org"]
 VALUES = ["v", "ab", "a", "zab", "q1", "b.json", "7"]
 
@@ -108,7 +108,7 @@ def _guard(rng):
         return {"some": sorted(set(rng.sample(STD, k)))}
     if r < 0.85:
         ms = [rng.choice(CUSTOM)]
-        if rng.random() < 0.5:
+        if rng.random() < 0.6:
             ms.append(rng.choice(STD[:4]))
         if rng.random() < 0.3:
             ms.append(rng.choice(CUSTOM))
@@ -325,6 +325,10 @@ def mutate_path(rng, p):
     return "/".join(segs) or "/"
 
 
+def listed_custom(g):
+    return [m for m in g.get("some", []) if m not in STD]
+
+
 def request_script(spec):
     import random
     rng = random.Random(int(spec.get("seed_tag", 0.5) * 1e9))
@@ -356,13 +360,17 @@ def request_script(spec):
             path = instantiate(rng, r["path"])
             host = host_for(rng, r["domain"])
             if "some" in g:
-                for m in g["some"][:2]:
+                # every method of the guard (mixed standard / custom guards included), on the first instantiation
+                for m in (g["some"] if rep == 0 else g["some"][:2]):
                     add(m, path, host, "match")
             else:
                 add(rng.choice(STD), path, host, "match-any")
             other = [m for m in STD if "some" not in g or m not in g["some"]]
             add(rng.choice(other), path, host, "other-method")
             add(rng.choice(CUSTOM), path, host, "custom-method")
+            mine = [m for m in listed_custom(g)]
+            if mine:
+                add(rng.choice(mine), path, host, "own-custom-method")
             add(rng.choice(STD[:3]), mutate_path(rng, path), host, "near-miss")
             if rep == 0 and domains:
                 add(rng.choice(STD[:2]), path, rng.choice(["zzz.org", "com", host + ":8080", host + ".", host_for(rng, rng.choice(domains))]), "other-host")
